@@ -286,8 +286,12 @@ fn pareto(a: &[f64], b: &[f64]) -> Option<Ordering> {
 
 fn multi_pair(n: usize, m: usize) -> Option<Ordering> {
     let (va, vb) = (legalvec(n), legalvec(m));
-    let a = MultiObjective::try_from(va.clone()).unwrap();
+    // the two public constructors are interchangeable: one operand through each
+    let a = MultiObjective::try_from(&va[..]).unwrap();
     let b = MultiObjective::try_from(vb.clone()).unwrap();
+    let a2 = MultiObjective::try_from(va.clone()).unwrap();
+    assert!(a == a2 && a.partial_cmp(&a2) == Some(Ordering::Equal), "a vector built from a slice equals the same vector built from a Vec");
+    std::mem::forget(a2);
     let c = a.partial_cmp(&b);
     let d = b.partial_cmp(&a);
     assert!(c == pareto(&va, &vb), "partial_cmp is Pareto dominance");
